@@ -57,6 +57,7 @@ SCHEMA = {
     # abstract view of a token in a children list: only the fields the typographic rules look at
     "TokenA": {"type": "atom", "info": "atom", "content": "atom", "level": "int", "nesting": "int", "children": "atom"},
     "StateCoreJ": {"tokens": "reclist:TokenA"},
+    "StateInlineJ": {"tokens": "reclist:TokenA", "delimiters": "optlist", "tokens_meta": "optlist"},
     "_Result": {"ok": "bool", "pos": "int", "lines": "int", "str": "str"},
     "ParserBlock": {"ruler": "obj:Ruler"},
     "ParserInline": {"ruler": "obj:Ruler", "ruler2": "obj:Ruler"},
